@@ -251,7 +251,7 @@ PROPS = {
     "C16": {
         "families": [("children", 1200, 30000), ("faults", 200, 6000)],
         "monitors": ["C03", "C16"],
-        "theorems": ["C16_child_is_held_strongly", "C16_released_only_with_parent", "C16_parent_end_releases_children", "C16_broadcast_targets", "C16_broadcast_is_complete"],
+        "theorems": ["C16_child_is_held_strongly", "C16_released_only_with_parent", "C16_parent_end_releases_children", "C16_broadcast_targets", "C16_broadcast_is_complete", "C16_copy_lands_at_the_tail_of_the_childs_mailbox"],
         "nontrivial": nt_c16,
         "rule": "cases generated from (family, VERIF_SEED, index): actor trees up to depth 3 built by handlers that spawn children and register them under two message types, children also held from outside, broadcasts from handlers, parent termination by stop, last drop, failure, panic and cancellation at random times; non-trivial = a parent with registered children broadcast to them or its task ended; distinct = distinct case JSON",
         "assumptions": ["completeness of one broadcast (one submission per registered child of the type) is checked by the search acceptor on every implementation trace, not proved: the model fixes the target of the i-th submission but not the number of submissions"],
@@ -275,7 +275,7 @@ PROPS = {
     "C08": {
         "families": [("registry", 1200, 30000), ("registry-liveness", 400, 10000)],
         "monitors": ["C14", "C03"],
-        "theorems": ["C08_operations_refine_the_sequential_spec", "C08_spawned_on_demand_only", "C08_exclusive_while_spawning", "C08_registry_changes_only_by_its_operations"],
+        "theorems": ["C08_operations_refine_the_sequential_spec", "C08_spawned_on_demand_only", "C08_exclusive_while_spawning", "C08_registry_changes_only_by_its_operations", "C08_terminated_instance_is_never_handed_out", "C08_terminated_is_for_ever"],
         "nontrivial": nt_c08,
         "rule": "cases generated from (family, VERIF_SEED, index): 1-4 client tasks issuing from_registry, setup, register, replace, unregister, try_from_registry, already_running, stop, halt and self-stopping calls on two service types, with random schedules; non-trivial = two or more tasks used the registry, one operation mutated it, and an instance terminated or was spawned on demand; distinct = distinct case JSON",
         "assumptions": ["the registry is process-global: the harness clears it between cases through the cfg(hannibal_verif) hook",
@@ -302,7 +302,7 @@ PROPS = {
     "C14": {
         "families": [("liveness-query", 900, 25000), ("registry-liveness", 500, 12000), ("faults", 200, 6000)],
         "monitors": ["C14"],
-        "theorems": ["C14_truth"],
+        "theorems": ["C14_truth", "C14_answer_after_termination_is_for_ever"],
         "nontrivial": nt_c14,
         "rule": "cases generated from (family, VERIF_SEED, index); non-trivial = a stopped()/running() query (or a registry operation) is issued after the addressed actor's task ended while nobody had awaited that actor before; distinct = distinct case JSON",
         "assumptions": ["'terminated' is witnessed by the end of the actor's task (EvTaskEnd), which is also when the notifier fires or is dropped"],
